@@ -50,11 +50,7 @@ func (v *Value) UnmarshalNBT(tagType byte, r nbt.DecoderReader) error {
 			return errors.New("byte array len less than 0")
 		}
 
-		v.data = append(v.data[:0], make([]byte, 4+int(n))...)
-		binary.BigEndian.PutUint32(v.data, uint32(n))
-
-		_, err = io.ReadFull(r, v.data[4:])
-		if err != nil {
+		if err = v.readCounted(r, uint32(n), int(n)); err != nil {
 			return err
 		}
 
@@ -133,11 +129,7 @@ func (v *Value) UnmarshalNBT(tagType byte, r nbt.DecoderReader) error {
 			return errors.New("int array len less than 0")
 		}
 
-		v.data = append(v.data[:0], make([]byte, 4+int(n)*4)...)
-		binary.BigEndian.PutUint32(v.data, uint32(n))
-
-		_, err = io.ReadFull(r, v.data[4:])
-		if err != nil {
+		if err = v.readCounted(r, uint32(n), int(n)*4); err != nil {
 			return err
 		}
 
@@ -150,11 +142,7 @@ func (v *Value) UnmarshalNBT(tagType byte, r nbt.DecoderReader) error {
 			return errors.New("long array len less than 0")
 		}
 
-		v.data = append(v.data[:0], make([]byte, 4+int(n)*8)...)
-		binary.BigEndian.PutUint32(v.data, uint32(n))
-
-		_, err = io.ReadFull(r, v.data[4:])
-		if err != nil {
+		if err = v.readCounted(r, uint32(n), int(n)*8); err != nil {
 			return err
 		}
 	}
@@ -203,6 +191,24 @@ func readString(r nbt.DecoderReader) (string, error) {
 		str = string(buf)
 	}
 	return str, err
+}
+
+// readCounted fills v.data with the 4-byte element count followed by size payload bytes. The count comes
+// from the input, so the buffer grows as the payload actually arrives instead of being allocated up front.
+func (v *Value) readCounted(r io.Reader, count uint32, size int) error {
+	const chunk = 64 << 10
+	v.data = append(v.data[:0], 0, 0, 0, 0)
+	binary.BigEndian.PutUint32(v.data, count)
+	for size > 0 {
+		c := min(size, max(chunk, len(v.data)))
+		start := len(v.data)
+		v.data = append(v.data, make([]byte, c)...)
+		if _, err := io.ReadFull(r, v.data[start:]); err != nil {
+			return err
+		}
+		size -= c
+	}
+	return nil
 }
 
 type decodeErr struct {
